@@ -249,6 +249,26 @@ var locFaults = []struct {
 	{"parse:double-comma", "strlen('a',, 2);", "parse"},
 }
 
+// locContexts wrap the planted statement: the error is raised somewhere else than in the statement
+// the enclosing construct is executing, and must still be reported on its own line.
+var locContexts = []struct {
+	Name      string
+	Pre, Post []string
+}{
+	{"top", nil, nil},
+	{"if-body", []string{"if (true) {"}, []string{"}"}},
+	{"for-body", []string{"for ($zzi = 0; $zzi < 1; $zzi++) {"}, []string{"}"}},
+	{"while-body", []string{"$zzw = 0;", "while ($zzw < 1) {", "$zzw++;"}, []string{"}"}},
+	{"foreach-body", []string{"foreach ([1] as $zzv) {"}, []string{"}"}},
+	{"fn-called-from-top", []string{"function zzf() {"}, []string{"}", "zzf();"}},
+	{"fn-called-from-if", []string{"function zzf() {"}, []string{"}", "if (true) {", "zzf();", "}"}},
+	{"fn-called-from-for", []string{"function zzf() {"}, []string{"}", "for ($zzi = 0; $zzi < 1; $zzi++) {", "zzf();", "}"}},
+	{"fn-called-from-while", []string{"function zzf() {"}, []string{"}", "$zzw = 0;", "while ($zzw < 1) {", "$zzw++;", "zzf();", "}"}},
+	{"fn-called-from-foreach", []string{"function zzf() {"}, []string{"}", "foreach ([1] as $zzv) {", "zzf();", "}"}},
+	{"method-called-from-for", []string{"class ZzC {", "public function m() {"}, []string{"}", "}", "for ($zzi = 0; $zzi < 1; $zzi++) {", "(new ZzC())->m();", "}"}},
+	{"fn-called-from-fn-in-for", []string{"function zzf() {"}, []string{"}", "function zzg() {", "zzf();", "return 1;", "}", "for ($zzi = 0; $zzi < 1; $zzi++) {", "$zzr = zzg();", "}"}},
+}
+
 var locRe = regexp.MustCompile(`([^\s:'"(]+\.php):(\d+)(?::(\d+))?`)
 
 func c18JudgeLocation(rec *sb.Rec, dir string, c c18Case) *failure {
@@ -300,7 +320,7 @@ func TestC18(t *testing.T) {
 	cfg := sb.LoadConfig("C18")
 	rec := sb.NewRec(cfg)
 	defer rec.Flush()
-	rec.R.Rule = "(a) span invariants on every corpus file (tests/**, examples/**, .php in template mode, .zy in plain mode) and on generated programs, intact and with 1-3 seeded injections at token boundaries (multi-byte identifiers and strings, CRLF, line / hash / block comments, heredoc, nowdoc, nested interpolation, full-width space, inline HTML); (b) error locations: generated programs (one statement per line) with exactly one planted fault (throw, modulo by zero, undefined function / method / class, three parse faults) moved across all top-level statement positions, run through the CLI. Non-trivial = the input contains an injected feature before its last token / the planted line is not 1; distinct by source text."
+	rec.R.Rule = "(a) span invariants on every corpus file (tests/**, examples/**, .php in template mode, .zy in plain mode) and on generated programs, intact and with 1-3 seeded injections at token boundaries (multi-byte identifiers and strings, CRLF, line / hash / block comments, heredoc, nowdoc, nested interpolation, full-width space, inline HTML); (b) error locations: generated programs (one statement per line) with exactly one planted fault (throw, modulo by zero, undefined function / method / class, three parse faults) moved across all top-level statement positions, the runtime faults also wrapped in 11 contexts (loop / if bodies, a function or method called from a for / while / foreach / if body, a call chain), run through the CLI. Non-trivial = the input contains an injected feature before its last token / the planted line is not 1; distinct by source text."
 	pool := &sb.Pool{}
 	defer pool.Close()
 	dl := time.Now().Add(budget(cfg, 70, 800))
@@ -387,15 +407,25 @@ func TestC18(t *testing.T) {
 			points = []int{points[0], points[len(points)/2], points[len(points)-1]}
 		}
 		for _, at := range points {
-			for _, fk := range locFaults {
+			for fi, fk := range locFaults {
 				locDone++
 				if locDone%cfg.NShards != cfg.Shard {
 					continue
 				}
-				nl := append(append(append([]string{}, lines[:at]...), fk.Stmt), lines[at:]...)
-				c := c18Case{Src: strings.Join(nl, "\n") + "\n", Tmpl: true, Kind: "location", Fault: fk.Name, Line: at + 1}
+				// every fault at top level; runtime faults also inside one wrapping context (rotating)
+				lc := locContexts[0]
+				if fk.Kind == "runtime" && (locDone/cfg.NShards)%2 == 1 {
+					lc = locContexts[1+(locDone/cfg.NShards/2+fi)%(len(locContexts)-1)]
+				}
+				block := append(append(append([]string{}, lc.Pre...), fk.Stmt), lc.Post...)
+				nl := append(append(append([]string{}, lines[:at]...), block...), lines[at:]...)
+				fname := fk.Name
+				if lc.Name != "top" {
+					fname += "@" + lc.Name
+				}
+				c := c18Case{Src: strings.Join(nl, "\n") + "\n", Tmpl: true, Kind: "location", Fault: fname, Line: at + 1 + len(lc.Pre)}
 				rec.NonTrivial(c.Src)
-				rec.Label("location."+fk.Name, c.Src)
+				rec.Label("location."+fname, c.Src)
 				if f := c18JudgeLocation(rec, dir, c); f != nil {
 					if !rec.IsKnown(f.Key) {
 						return f
